@@ -100,6 +100,19 @@ class MsSqlImpl(SqlImpl):
         return cls.compile_query(table, query, sqa_expr)
 
     @classmethod
+    def compile_query(cls, table, query, sqa_expr):
+        sel = super().compile_query(table, query, sqa_expr)
+        # OFFSET needs an ORDER BY in every SELECT, also in a subquery or if all
+        # available sort keys are constants (those are not rendered in ORDER BY)
+        if (
+            query.limit is not None
+            and query.offset
+            and all(types.is_const(ord.order_by.dtype()) for ord in query.order_by)
+        ):
+            sel = sel.order_by(sqa.text("(SELECT NULL)"))
+        return sel
+
+    @classmethod
     def compile_ordered_aggregation(cls, *args: sqa.ColumnElement, order_by: list[sqa.UnaryExpression], impl):
         return impl(*args).within_group(*order_by)
 
